@@ -440,7 +440,9 @@ class ArgumentParser:
                 ):
                     default_value = kwargs.pop("default")
                     flag_name = option["flags"][0]
-                    namespace._passes[flag_name] = default_value
+                    # Copy the default: custom actions extend this list in
+                    # place, and it must not leak into later commands.
+                    namespace._passes[flag_name] = list(default_value)
             parser.add_argument(*option["flags"], **kwargs)
 
         # Make a best-effort attempt to parse arguments.
